@@ -5450,7 +5450,7 @@ func (a *Agent) OpenShellStream(ctx context.Context, targetID identity.AgentID, 
 
 	// Create adapter for this client session
 	adapter := health.NewShellStreamAdapter(streamID, targetID, func() {
-		a.cleanupShellClientStream(streamID)
+		a.closeShellClientStream(streamID, nextHop)
 	})
 
 	// Register the client stream
@@ -5656,6 +5656,31 @@ func (a *Agent) handleShellClientData(streamID uint64, data []byte, flags uint8)
 	}
 
 	return true
+}
+
+// closeShellClientStream is the adapter's close callback. If the stream is
+// still registered the session is being closed from this side (the caller
+// walked away, or the session failed locally): the remote side is told, or the
+// command would keep running and every agent on the path would keep its relay
+// entry. When the remote side closed first, handleShellClientClose has already
+// removed the registration and nothing is sent.
+func (a *Agent) closeShellClientStream(streamID uint64, nextHop identity.AgentID) {
+	a.shellClientMu.Lock()
+	_, registered := a.shellClientStreams[streamID]
+	delete(a.shellClientStreams, streamID)
+	a.shellClientMu.Unlock()
+
+	if !registered {
+		return
+	}
+	a.streamMgr.RemoveStream(streamID)
+	// This runs inside adapter.Close, with the adapter's lock held: the frame
+	// is written from a goroutine of its own so that a slow connection cannot
+	// hold that lock.
+	go func() {
+		defer recovery.RecoverWithLog(a.logger, "closeShellClientStream")
+		a.WriteStreamClose(nextHop, streamID)
+	}()
 }
 
 // closeShellClientStreamsForPeer ends every shell client session whose first
